@@ -36,7 +36,6 @@ DATATYPE_CLARK = ["{%s}int" % XS, "{%s}string" % XS, "{%s}QName" % XS]
 
 # guard clause -> (Coq predicate, narrow class of the known finding); priority order
 CLAUSES = [
-    ("cl_uris", "hostile-namespace-uri-written-raw"),
     ("cl_names", "name-not-validated"),
     ("cl_user_prefixes", "reserved-or-invalid-user-prefix"),
     ("cl_texts", "non-xml-char-not-rejected"),
@@ -44,6 +43,8 @@ CLAUSES = [
     ("cl_late_qname", "late-qname-data-undeclared-prefix"),
     ("cl_clark", "datatype-clark-text-rewritten"),
     ("cl_nil", "nil-kept-with-content"),
+    # last: only the lxml writer fails, outside the modelled domain of its sink
+    ("cl_lxml_domain", "lxml-rejects-namespace-uri-with-valueerror"),
 ]
 
 
@@ -264,9 +265,9 @@ WITNESSES = [
                                              ["end", ["urn:c", "c"]], ["end", ["urn:a", "r"]]]}),
     ("fixed:generated-prefix-collision",
      {"user": [["xsi", "urn:o"]], "events": [["start", ["urn:o", "r"]], ["attr", [XSI, "nil"], {"t": "true"}], ["end", ["urn:o", "r"]]]}),
-    ("hostile-namespace-uri-written-raw",
+    ("lxml-rejects-namespace-uri-with-valueerror",
      {"user": [], "events": [["start", ['urn:a"b', "r"]], ["end", ['urn:a"b', "r"]]]}),
-    ("hostile-namespace-uri-written-raw",
+    ("fixed:hostile-namespace-uri-written-raw",
      {"user": [], "events": [["start", ["urn:a&b", "r"]], ["end", ["urn:a&b", "r"]]]}),
     ("qname-value-default-ns-reset",
      {"user": [[None, "urn:a"]], "events": [["start", [None, "r"]], ["attr", [None, "x"], {"q": ["urn:a", "v"]}], ["end", [None, "r"]]]}),
